@@ -12,7 +12,7 @@ fn v(out: &mut Vec<Violation>, prop: &'static str, clause: &'static str, detail:
 
 /// all dispatches to store s come from the scenario's main thread, the store has a stepper
 pub fn deterministic_bp(d: &Digest, s: usize) -> bool {
-    d.prog.family == "bp"
+    (d.prog.family == "bp" || d.prog.family == "build")
         && d.prog.stores[s].stepper.is_some()
         && d.stores[s].dispatches.iter().all(|&c| d.calls[c].thr == 0)
         && !d.prog.acts.values().any(|a| a.red.values().any(|r| r.eff.is_some()))
